@@ -51,6 +51,26 @@ package volume
 //@ ensures[C05] "range" forall kk :: 0 <= kk && kk < len(result) ==> 0 - 1 <= result[kk] && result[kk] <= 1
 //@ ensures[C03] consumed(snapshots) == len(snapshots) && closed(result)
 //@ ensures[C04] forall kk :: 0 <= kk && kk < len(result) ==> hor(result, kk) <= hor(snapshots, kk)
+//@ rel[C18] "price" param lam real
+//@ rel[C18] "price" assume lam > 0 && len(second(snapshots)) == len(snapshots) && (forall k :: 0 <= k && k < len(snapshots) ==> pscaled(second(snapshots)[k], snapshots[k], lam))
+//@ rel[C18] "price" assume forall j :: 0 <= j && j < len(snapshots) ==> highs[j] != lows[j] && volumes[j] != 0
+//@ rel[C18] "price" use sq_pos(lam)
+//@ rel[C18] "price" use forall j :: emvPrevBoxS_pscale(highs, lows, volumes, second(highs), second(lows), second(volumes), lam, j)
+//@ rel[C18] "price" step forall j :: 0 <= j && j < len(snapshots) - 1 ==> emvPrevBoxS(second(highs), second(lows), second(volumes))[j] == (lam * lam) * emvPrevBoxS(highs, lows, volumes)[j]
+//@ rel[C18] "price" step forall i :: 0 <= i && i < len(emvs) ==> emvs[i] == smaS(emvPrevBoxS(highs, lows, volumes), e.EaseOfMovement.Sma.Period)[i] && second(emvs)[i] == smaS(emvPrevBoxS(second(highs), second(lows), second(volumes)), e.EaseOfMovement.Sma.Period)[i]
+//@ rel[C18] "price" use[cond] smaS_scale_n(emvPrevBoxS(highs, lows, volumes), emvPrevBoxS(second(highs), second(lows), second(volumes)), lam * lam, e.EaseOfMovement.Sma.Period, len(snapshots) - 1, _)
+//@ rel[C18] "price" use forall i :: mul_cmp(lam * lam, emvs[i], 0)
+//@ rel[C18] "price" ensures len(second(result)) == len(result) && (forall k :: 0 <= k && k < len(result) ==> second(result)[k] == result[k])
+//@ rel[C18] "volume" param mu real
+//@ rel[C18] "volume" assume mu > 0 && len(second(snapshots)) == len(snapshots) && (forall k :: 0 <= k && k < len(snapshots) ==> vscaled(second(snapshots)[k], snapshots[k], mu))
+//@ rel[C18] "volume" assume forall j :: 0 <= j && j < len(snapshots) ==> highs[j] != lows[j] && volumes[j] != 0
+//@ rel[C18] "volume" use sq_pos(mu)
+//@ rel[C18] "volume" use forall j :: emvPrevBoxS_vscale(highs, lows, volumes, second(highs), second(lows), second(volumes), mu, j)
+//@ rel[C18] "volume" step forall j :: 0 <= j && j < len(snapshots) - 1 ==> emvPrevBoxS(second(highs), second(lows), second(volumes))[j] == (1 / mu) * emvPrevBoxS(highs, lows, volumes)[j]
+//@ rel[C18] "volume" step forall i :: 0 <= i && i < len(emvs) ==> emvs[i] == smaS(emvPrevBoxS(highs, lows, volumes), e.EaseOfMovement.Sma.Period)[i] && second(emvs)[i] == smaS(emvPrevBoxS(second(highs), second(lows), second(volumes)), e.EaseOfMovement.Sma.Period)[i]
+//@ rel[C18] "volume" use[cond] smaS_scale_n(emvPrevBoxS(highs, lows, volumes), emvPrevBoxS(second(highs), second(lows), second(volumes)), 1 / mu, e.EaseOfMovement.Sma.Period, len(snapshots) - 1, _)
+//@ rel[C18] "volume" use forall i :: mul_cmp(1 / mu, emvs[i], 0)
+//@ rel[C18] "volume" ensures len(second(result)) == len(result) && (forall k :: 0 <= k && k < len(result) ==> second(result)[k] == result[k])
 
 //@ func ForceIndexStrategy.Compute
 //@ requires f.ForceIndex.Ema.Period >= 1 && consumed(snapshots) == 0
